@@ -596,3 +596,6 @@ package interpreter
 //@ ensures [eof] (len(arguments) == 0 || (len(arguments) == 1 && isStr(arguments[0]))) && old(delivered) >= inLines ==> result1 != nil && delivered == old(delivered)
 //@ ensures [prompt] len(arguments) == 1 && isStr(arguments[0]) ==> stdoutN == old(stdoutN)+1 && stdout[old(stdoutN)] == str(arguments[0])
 //@ ensures [noprompt] len(arguments) == 0 ==> stdoutN == old(stdoutN)
+
+// the shared reader is always positioned at the next undelivered line (it is the only reader of stdin)
+//@ globalinv stdinReader r: r != nil && sel(readerPos(), r) == delivered
